@@ -141,6 +141,11 @@ def main():
         for ci in range(n_cfg):
             W = rng.choice([40, 200, 257, 300, 520, 700, 900])
             H = rng.choice([40, 130, 256, 400, 513, 800])
+            # one configuration: MANY disjoint pieces inside ONE deepest tile, tiled by two workers — each worker updates the same
+            # tile again and again with the other worker's updates in between
+            strips = ci == 1
+            if strips:
+                W, H = 240, 200
             npr = np.random.RandomState(rng.randrange(2 ** 31))
             M = npr.randint(1, 60000, size=(H, W)).astype(np.float32)
             # undefined blobs in the sky itself
@@ -148,11 +153,15 @@ def main():
                 y0, x0 = rng.randrange(H), rng.randrange(W)
                 M[y0:y0 + rng.randint(1, max(1, H // 5)), x0:x0 + rng.randint(1, max(1, W // 5))] = np.nan
             k = rng.randint(1, 6) if ci else 3
+            if strips:
+                k = 8
             rects = []
             # make sure the union touches all four sides of the mosaic
             must = [(0, 0), (W - 1, H - 1)]
             for j in range(k):
-                if j < 2 and k >= 2:
+                if strips:
+                    ox, oy, w, hh = 30 * j, 0, 30, H
+                elif j < 2 and k >= 2:
                     px, py_ = must[j]
                     w = rng.randint(max(1, W // 3), W)
                     hh = rng.randint(max(1, H // 3), H)
@@ -202,9 +211,10 @@ def main():
             if st != "ok":
                 h.violation("single:run", f"{desc}: tiling the assembled mosaic {st}: {single}", input=inp)
                 continue
-            for par in (1, 3):
+            for par in ((1, 2) if strips else (1, 3)):
                 order = list(range(k))
-                rng.shuffle(order)
+                if not strips:
+                    rng.shuffle(order)
                 out_dir = os.path.join(cdir, f"multi_p{par}")
                 st, res = run_isolated(_run, ([paths[j] for j in order], out_dir, fmt, par), 300)
                 h.count("runs", f"{fmt}/par{par}/{storage}")
